@@ -20,6 +20,7 @@ import (
 )
 
 type Boundary struct {
+	Kind string `json:"kind,omitempty"` // "" method selection | "sign" | "parity" | "integer": the last three need an anchor on EACH side
 	File string `json:"file"`
 	Line int    `json:"line"`
 	Func string `json:"func"`
@@ -37,6 +38,44 @@ var boundaryFuncs = map[string][]string{
 	"trigamma.go":  {"trigamma_imp", "trigamma_prec"},
 	"polygamma.go": {"polygamma_imp"},
 	"zeta.go":      {"zeta_imp", "zeta_imp_prec"},
+	"sinPi.go":     {"SinPi"},
+	"cosPi.go":     {"CosPi"},
+}
+
+// functions whose parity tests (`& 1`, `% 2`) are listed in addition (round 3)
+var parityFuncs = map[string][]string{"polygamma.go": {"poly_cot_pi"}}
+
+func isLit(e ast.Expr, v string) bool {
+	bl, ok := e.(*ast.BasicLit)
+	return ok && bl.Value == v
+}
+
+// contains `e & 1` or `e % 2`
+func hasParity(e ast.Expr) bool {
+	found := false
+	ast.Inspect(e, func(n ast.Node) bool {
+		if be, ok := n.(*ast.BinaryExpr); ok {
+			if (be.Op == token.AND && isLit(be.Y, "1")) || (be.Op == token.REM && isLit(be.Y, "2")) {
+				found = true
+			}
+		}
+		return !found
+	})
+	return found
+}
+
+func isZeroLit(e ast.Expr) bool { return isLit(e, "0") || isLit(e, "0.0") }
+
+func classify(be *ast.BinaryExpr, s string) string {
+	switch {
+	case hasParity(be):
+		return "parity"
+	case strings.Contains(s, "math.Floor(") && (be.Op == token.EQL || be.Op == token.NEQ):
+		return "integer"
+	case (isZeroLit(be.X) || isZeroLit(be.Y)) && (be.Op == token.LSS || be.Op == token.LEQ || be.Op == token.GTR || be.Op == token.GEQ):
+		return "sign"
+	}
+	return ""
 }
 
 func exprString(fset *token.FileSet, e ast.Expr) string {
@@ -77,6 +116,10 @@ func listBoundaries(repo string) []Boundary {
 		want := map[string]bool{}
 		for _, n := range boundaryFuncs[fn] {
 			want[n] = true
+		}
+		ponly := map[string]bool{}
+		for _, n := range parityFuncs[fn] {
+			want[n], ponly[n] = true, true
 		}
 		for _, d := range af.Decls {
 			fd, ok := d.(*ast.FuncDecl)
@@ -138,6 +181,7 @@ func listBoundaries(repo string) []Boundary {
 					return true
 				})
 			}
+			inCmp := map[ast.Node]bool{}
 			ast.Inspect(fd.Body, func(n ast.Node) bool {
 				be, ok := n.(*ast.BinaryExpr)
 				if !ok {
@@ -145,7 +189,30 @@ func listBoundaries(repo string) []Boundary {
 				}
 				switch be.Op {
 				case token.LSS, token.LEQ, token.GTR, token.GEQ, token.EQL, token.NEQ:
+				case token.REM:
+					// bare `n % 2` outside a comparison (e.g. z := u + float64(n % 2))
+					if isLit(be.Y, "2") && !inCmp[be] {
+						s := exprString(fset, be)
+						out = append(out, Boundary{Kind: "parity", File: fn, Line: fset.Position(be.Pos()).Line, Func: fd.Name.Name, Expr: s,
+							Key: fd.Name.Name + "|" + strings.ReplaceAll(s, " ", "")})
+					}
+					return true
 				default:
+					return true
+				}
+				if hasParity(be) {
+					ast.Inspect(be, func(m ast.Node) bool {
+						if m != nil {
+							inCmp[m] = true
+						}
+						return true
+					})
+					s := exprString(fset, be)
+					out = append(out, Boundary{Kind: "parity", File: fn, Line: fset.Position(be.Pos()).Line, Func: fd.Name.Name, Expr: s,
+						Key: fd.Name.Name + "|" + strings.ReplaceAll(s, " ", "")})
+					return true
+				}
+				if ponly[fd.Name.Name] {
 					return true
 				}
 				bare := func(e ast.Expr) bool {
@@ -159,7 +226,7 @@ func listBoundaries(repo string) []Boundary {
 				if !mentions(be.X, floats) && !mentions(be.Y, floats) {
 					return true
 				}
-				out = append(out, Boundary{File: fn, Line: fset.Position(be.Pos()).Line, Func: fd.Name.Name, Expr: s,
+				out = append(out, Boundary{Kind: classify(be, s), File: fn, Line: fset.Position(be.Pos()).Line, Func: fd.Name.Name, Expr: s,
 					Key: fd.Name.Name + "|" + strings.ReplaceAll(s, " ", "")})
 				return true
 			})
